@@ -56,11 +56,65 @@ def usl (ploidy nv nt : Nat) (U : List (List α)) (p : List α) : List α :=
 def lsl (ploidy nv nt : Nat) (U : List (List α)) (p : List α) : List α :=
   (List.range nt).map (fun t => lslF ploidy nv (eff U t) (fun j => p.getD j 0))
 
+/-- two's-complement wrap of an integer to `bits` bits (numpy scalar arithmetic in a narrow signed type) -/
+def wrapInt (bits : Nat) (x : Int) : Int := (x + 2 ^ (bits - 1)) % 2 ^ bits - 2 ^ (bits - 1)
+
+/-- the ndarray branch of `usl` / `lsl` when `ploidy` is a numpy signed-integer SCALAR of `bits` bits (e.g. `Z.max()` of an
+    int8 matrix): in `gtobj.sum(0) / (ploidy * gtobj.shape[0])` the Python int `shape[0]` is converted to the scalar's type
+    and the product wraps (defect D62; numpy raises instead when `shape[0]` itself does not fit) -/
+def afreqNpPloidy (bits ploidy nv : Nat) (m : Genotype.UMat) : List α :=
+  (List.range nv).map (fun j => ((acountAt m j : Int) : α) / ((wrapInt bits ((ploidy * m.length : Nat) : Int) : Int) : α))
+
 /-- `gebv_numpy(Z)`: taxa × traits -/
 def gebv (nv nt : Nat) (U : List (List α)) (Z : UMat) : List (List α) :=
   Z.map (fun r => (List.range nt).map (fun t => gebvF nv (eff U t) (entry r)))
 
 end limits
+
+/-! ### the model object: its random-effect vector, and in-place edits of its effect matrices
+
+`DenseAdditiveLinearGenomicModel(beta, u_misc, u_a)` stores the three arrays it is given (no copy) and hands the same
+arrays out through its getters, so `model.u_a[:,t] *= -1`, `model.u_a[j,t] = v`, `model.u_a -= c`, the same edits on the
+array that was passed to the constructor, and re-assignment through the setter all change the effects every later
+`usl` / `lsl` / `gebv` call reads.  `u_misc` is part of `model.u = concatenate([u_misc, u_a])` only; no limit and no
+breeding value reads it. -/
+/-- `self.u = numpy.concatenate([self.u_misc, self.u_a], axis = 0)` -/
+def randomEffects {α : Type} (uMisc U : List (List α)) : List (List α) := uMisc ++ U
+
+/-- the marker block of `self.u`: the rows AFTER the miscellaneous ones -/
+def markerBlock {α : Type} (uMisc u : List (List α)) : List (List α) := u.drop uMisc.length
+
+section modelobj
+variable {α : Type} [Add α] [Mul α]
+
+/-- one in-place edit of a `(rows, t)` effect matrix -/
+inductive Edit (α : Type)
+  | scaleCol (t : Nat) (c : α)      -- `M[:,t] *= c`   (`c = -1`: the trait is turned around)
+  | setCell (j t : Nat) (v : α)     -- `M[j,t] = v`
+  | addAll (v : α)                  -- `M += v`
+
+def applyEdit : Edit α → List (List α) → List (List α)
+  | .scaleCol t c, M => M.map (fun r => r.mapIdx (fun k x => if k == t then x * c else x))
+  | .setCell j t v, M => M.mapIdx (fun i r => if i == j then r.mapIdx (fun k x => if k == t then v else x) else r)
+  | .addAll v, M => M.map (fun r => r.map (fun x => x + v))
+
+/-- the matrix after a sequence of in-place edits, first edit first -/
+def applyEdits (es : List (Edit α)) (M : List (List α)) : List (List α) := es.foldl (fun M e => applyEdit e M) M
+
+/-- the state of a model object -/
+structure ModelObj (α : Type) where
+  beta : List (List α)
+  uMisc : List (List α)
+  uA : List (List α)
+
+/-- the object after in-place edits of `u_a` (`eu`) and of `beta` (`eb`); `u_misc` untouched -/
+def ModelObj.edit (M : ModelObj α) (eu eb : List (Edit α)) : ModelObj α :=
+  { M with uA := applyEdits eu M.uA, beta := applyEdits eb M.beta }
+
+/-- `copy.copy(model)` / `copy.deepcopy(model)`: the constructor applied to copies of the three arrays -/
+def ModelObj.copy (M : ModelObj α) : ModelObj α := { beta := M.beta, uMisc := M.uMisc, uA := M.uA }
+
+end modelobj
 
 /-! ### closed breeding steps -/
 
